@@ -15,6 +15,18 @@ pub struct SolverParams<F: Float> {
     pub shrinking: bool,
 }
 
+/// Midpoint of the interval `[lb, ub]` of admissible thresholds; when no variable sits at one of
+/// the two bounds the interval is unbounded on that side and its finite end is taken
+fn interval_midpoint<F: Float>(lb: F, ub: F) -> F {
+    if ub.is_infinite() && lb.is_finite() {
+        lb
+    } else if lb.is_infinite() && ub.is_finite() {
+        ub
+    } else {
+        (ub + lb) / F::cast(2.0)
+    }
+}
+
 /// Status of alpha variables of the solver
 #[derive(Clone, Debug, PartialEq)]
 struct Alpha<F: Float> {
@@ -728,7 +740,7 @@ impl<'a, F: Float, K: 'a + Permutable<F>> SolverState<'a, F, K> {
         if nfree > 0 {
             sum_free / F::cast(nfree)
         } else {
-            (ub + lb) / F::cast(2.0)
+            interval_midpoint(lb, ub)
         }
     }
 
@@ -765,12 +777,12 @@ impl<'a, F: Float, K: 'a + Permutable<F>> SolverState<'a, F, K> {
         let r1 = if nfree1 > 0 {
             sum_free1 / F::cast(nfree1)
         } else {
-            (ub1 + lb1) / F::cast(2.0)
+            interval_midpoint(lb1, ub1)
         };
         let r2 = if nfree2 > 0 {
             sum_free2 / F::cast(nfree2)
         } else {
-            (ub2 + lb2) / F::cast(2.0)
+            interval_midpoint(lb2, ub2)
         };
 
         self.r = (r1 + r2) / F::cast(2.0);
